@@ -160,13 +160,33 @@ def explore(
                         space.detach_path(exc)
                         realised = deep_realize(pre_args.arguments)
                         msg = deep_realize(str(exc))
-                    failure = {
-                        "exc_type": type(exc).__name__,
-                        "message": msg[:2000],
-                        "trace": "".join(stack.format()[-6:])[-3000:],
-                    }
-                    res["cex"] = {k: _plain(v) for k, v in realised.items()}
-                    status = VerificationStatus.REFUTED
+                    # In-process native re-run of the realised model (no tracing): CrossHair's library models (regex
+                    # look-behind, struct, ...) are occasionally imprecise; a model that does not fail natively is a
+                    # spurious path, recorded as UNKNOWN, and the search continues.
+                    genuine = True
+                    try:
+                        fn(**deepcopyext(realised, CopyMode.REGULAR, {}), **params)
+                        genuine = False
+                    except Exception:  # noqa
+                        genuine = True
+                    except BaseException:  # assume() natively: precondition not met by the realised values
+                        genuine = False
+                    if genuine:
+                        failure = {
+                            "exc_type": type(exc).__name__,
+                            "message": msg[:2000],
+                            "trace": "".join(stack.format()[-6:])[-3000:],
+                        }
+                        res["cex"] = {k: _plain(v) for k, v in realised.items()}
+                        status = VerificationStatus.REFUTED
+                    else:
+                        res["spurious_models"] = res.get("spurious_models", 0) + 1
+                        if len(res.setdefault("spurious_samples", [])) < 3:
+                            res["spurious_samples"].append({k: _plain(v) for k, v in realised.items()})
+                        res["unknown_paths"] += 1
+                        res["unknown_reasons"]["model did not fail natively (imprecise library model)"] = \
+                            res["unknown_reasons"].get("model did not fail natively (imprecise library model)", 0) + 1
+                        status = VerificationStatus.UNKNOWN
                 else:
                     status = VerificationStatus.CONFIRMED
                     res["ok_paths"] += 1
